@@ -200,3 +200,46 @@ package gossip
 //@ contract delta.EntriesTotal
 //@   serves C13 C20
 //@   opt frame true
+
+// ---- CompactLocal (C17, C02) ---------------------------------------------------
+//
+// Compaction either leaves the local node untouched (too few tombstones: the
+// entry map object is the same) or replaces the entry map: every live key keeps
+// its value under a version above everything that existed before, tombstones
+// and the previous marker are gone, and the new marker names a version that is
+// at least every version that existed before and below every version that
+// exists now - so an observer that applies the marker drops nothing that is live.
+
+//@ contract (*clusterState).CompactLocal
+//@   serves C17 C02 C20
+//@   requires[env-threshold] threshold >= 1
+//@   let L = s.nodes[s.localID]
+//@   let ran = L.Entries != old(L.Entries)
+//@   modifies L.NodeMetadata, L.Entries
+//@   ensures[same-node] s.nodes == old(s.nodes) && L == old(L)
+//@   ensures[skipped] !ran ==> L.Version == old(L.Version) && (forall k string :: (k in L.Entries) == old(k in L.Entries) && L.Entries[k] == old(L.Entries[k]))
+//@   ensures[meta] L.ID == old(L.ID) && L.Addr == old(L.Addr) && L.Left == old(L.Left) && L.Unreachable == old(L.Unreachable) && L.Expiry == old(L.Expiry)
+//@   ensures[live-kept] ran ==> (forall k string {L.Entries[k]} :: k != compactKey ==> (k in L.Entries) == (old(liveHas(L, k)) && !(old(L.Entries[k].Internal) && k == compactKey)) && (k in L.Entries ==> L.Entries[k].Value == old(L.Entries[k].Value) && L.Entries[k].Internal == old(L.Entries[k].Internal) && !L.Entries[k].Deleted && L.Entries[k].Key == k))
+//@   ensures[reversioned] ran ==> (forall k string {L.Entries[k]} :: k in L.Entries ==> L.Entries[k].Version > old(L.Version))
+//@   ensures[marker] ran ==> compactKey in L.Entries && L.Entries[compactKey].Internal && !L.Entries[compactKey].Deleted && L.Entries[compactKey].Version == L.Version
+//@   ensures[marker-covers] ran ==> (forall k string :: old(k in L.Entries) ==> old(L.Entries[k].Version) <= parseUint(L.Entries[compactKey].Value)) && parseUint(L.Entries[compactKey].Value) <= old(L.Version)
+//@   loop 1 frame nothing
+//@   loop 1 invariant[inv] csInv(s) && wInv(s)
+//@   loop 1 invariant[some] deleted > 0 ==> (exists k string :: k in state.Entries)
+//@   loop 2 frame entries, elems(entries)
+//@   loop 2 invariant[inv] csInv(s) && wInv(s)
+//@   loop 2 invariant[fresh] cap(entries) == 0 || (fresh(entries) && loopfresh(entries))
+//@   loop 2 invariant[src] forall j int {entries[j]} :: 0 <= j && j < len(entries) ==> entries[j].Key in seen && entries[j].Key in state.Entries && state.Entries[entries[j].Key] == entries[j]
+//@   loop 2 invariant[covers] forall k string :: k in seen && k in state.Entries ==> (exists j int :: 0 <= j && j < len(entries) && entries[j].Key == k)
+//@   loop 3 frame state.NodeMetadata, entries(state.Entries)
+//@   loop 3 invariant[range] rangeindex < len(entries)
+//@   loop 3 invariant[new-map] state.Entries != nil && fresh(state.Entries) && state == old(s.nodes[s.localID]) && s.nodes == old(s.nodes)
+//@   loop 3 invariant[others] forall id string :: id in s.nodes && id != s.localID ==> s.nodes[id].NodeMetadata == old(s.nodes[id].NodeMetadata) && s.nodes[id].Entries == old(s.nodes[id].Entries)
+//@   loop 3 invariant[meta] state.ID == old(state.ID) && state.Addr == old(state.Addr) && state.Left == old(state.Left) && state.Unreachable == old(state.Unreachable) && state.Expiry == old(state.Expiry)
+//@   loop 3 invariant[src] forall j int {entries[j]} :: 0 <= j && j < len(entries) ==> old(now(entries[j].Key) in state.Entries) && old(state.Entries[now(entries[j].Key)]) == entries[j]
+//@   loop 3 invariant[cv] len(entries) >= 1 && compactVersion <= old(state.Version)
+//@   loop 3 invariant[cv-max] forall j int {entries[j]} :: 0 <= j && j < len(entries) ==> entries[j].Version <= compactVersion
+//@   loop 3 invariant[version] state.Version >= old(state.Version)
+//@   loop 3 invariant[built] forall k string {state.Entries[k]} :: k in state.Entries ==> old(k in state.Entries) && !old(state.Entries[k].Deleted) && !(old(state.Entries[k].Internal) && k == compactKey) && state.Entries[k].Value == old(state.Entries[k].Value) && state.Entries[k].Internal == old(state.Entries[k].Internal) && state.Entries[k].Key == k && !state.Entries[k].Deleted && old(state.Version) < state.Entries[k].Version && state.Entries[k].Version <= state.Version
+//@   loop 3 invariant[built-all] forall j int {entries[j]} :: 0 <= j && j <= rangeindex && !entries[j].Deleted && !(entries[j].Internal && entries[j].Key == compactKey) ==> entries[j].Key in state.Entries
+//@   loop 3 invariant[inj] forall k string {state.Entries[k]} :: k in state.Entries ==> keyWith(state.Entries, "Version", state.Entries[k].Version) == k
